@@ -38,7 +38,9 @@ fn('sfc_models.sector.Sector.AddCashFlow', name='sfc_models.sector.Sector.AddCas
    ensures=[('F_gains_exactly_the_flow', "implies(term.strip() != '', Den(%s) == old(Den(%s)) + V(nospace(term)))" % (F_OF % 'self', F_OF % 'self')),
             ('variables_only_added', 'all(implies(old(has(r.EquationBlock.Equations, s)), has(r.EquationBlock.Equations, s)) for r in refs(Sector) for s in strings())'),
             ('other_sectors_keep_their_variables', 'all(implies(r is not self, has(r.EquationBlock.Equations, s) == old(has(r.EquationBlock.Equations, s))) for r in refs(Sector) for s in strings())'),
-            ('old_lists_of_other_kinds_untouched', "heap_unchanged_except('tyof', 'len.*', 'el.*', 'dh.S.R', 'dv.S.R', 'dk', 'f.Equation.*', 'f.Term.*')")],
+            ('old_lists_of_other_kinds_untouched', "heap_unchanged_except('tyof', 'len.*', 'el.*', 'dh.S.R', 'dv.S.R', 'dk', 'f.Equation.*', 'f.Term.*')"),
+            # the only lists it mutates in place are the two ledgers' term lists (everything else it builds is a new list)
+            ('only_the_ledger_term_lists_are_mutated', "lists_unchanged_but(old(self.EquationBlock.Equations['F'].TermList), old(self.EquationBlock.Equations['INC'].TermList))")],
    raises=[RaisesSpec('SyntaxError', when='True'), RaisesSpec('LogicError', when='True'), RaisesSpec('NotImplementedError', when='True'), RaisesSpec('ValueError', when='True')])
 
 SHORT = "'DEM_' + self.Code"
